@@ -94,6 +94,14 @@ class Build:
         r = subprocess.run([VENV_PY, os.path.join(HERE, "oracle", "runner.py"), path],
                            cwd=self.dir, env=env, stdout=subprocess.PIPE, stderr=subprocess.PIPE,
                            text=True, timeout=timeout)
+        if r.returncode < 0 and len(cases) > 1:
+            # the real code crashed the interpreter (signal): isolate the crashing case(s)
+            return [self.run_cases([c], timeout=timeout)[0] for c in cases]
+        if r.returncode < 0:
+            # a hard crash of the real build on this input: reported as a (reproduced) violation of any property
+            # that promises a result, never swallowed
+            return [{"violates": True, "crash": "the real build died with signal %d on this input" % -r.returncode,
+                     "stderr": r.stderr[-300:]}]
         if r.returncode != 0:
             raise BuildError("oracle runner failed (%d):\n%s\n%s" % (r.returncode, r.stdout[-2000:], r.stderr[-3000:]))
         for line in reversed(r.stdout.splitlines()):
